@@ -672,6 +672,7 @@ pub fn def(tier: Tier) -> CheckDef {
         "rejected:address-pair-conflicts-with-base",
         "rejected:default-location-before-v5",
         "rejected:end-not-representable",
+        "rejected:begin-is-base-selection-marker",
         "rejected:open",
         "dedup:duplicates-in-unit",
     ] {
